@@ -435,6 +435,45 @@ func runC16(r *rep.Report, thorough bool) error {
 				tnames = append(tnames, s.Name)
 			}
 		}
+		// guard values, end to end: DEFAULT and CHECK of every guard column carry the tag's value with
+		// its enum placeholders expanded and nothing else changed (fields and tags from go/types,
+		// literals of the constants from the go/types facts)
+		factEnums := map[string]string{}
+		for _, p := range a.FB.Pkgs {
+			for _, c := range p.Consts {
+				if c.TypeQ == "" || !strings.HasPrefix(c.TypeQ, p.Path+".") {
+					continue
+				}
+				lit := c.Val
+				if tf := a.FB.Types[c.TypeQ]; tf != nil && tf.Under != nil && tf.Under.Info == "string" {
+					lit = "'" + strings.ReplaceAll(c.Str, "'", "''") + "'"
+				}
+				factEnums[strings.TrimPrefix(c.TypeQ, p.Path+".")+"."+c.Name] = lit
+			}
+		}
+		for _, name := range tnames {
+			tf := a.FB.Types[a.FB.RootPath+"."+name]
+			if tf.Under == nil {
+				continue
+			}
+			for _, f := range tf.Under.Fields {
+				val := reflect.StructTag(f.Tag).Get("gomacro-sql-guard")
+				if val == "" {
+					continue
+				}
+				reply, err := d.Call(map[string]any{"op": "c16.guard", "owner": name, "column": f.Name, "value": val, "enums": factEnums})
+				if err != nil {
+					return err
+				}
+				r.Case(map[string]any{"case": a.Case.ID, "owner": name, "guard": val}, true)
+				for _, want := range strsOf(reply["out"]) {
+					if !strings.Contains(constraintsText, want) {
+						r.Fail(rep.Failure{Signature: "c16:guard-value-altered-or-missing", What: "the guard " + name + "." + f.Name + " should give the statement " + want + " (the tag's value with its enum placeholders expanded, no other word altered)",
+							Input: map[string]any{"case": a.Case.ID, "struct": name, "field": f.Name, "value": val, "sources": a.Case.Sources()}, Expected: want, Observed: constraintsText})
+					}
+				}
+			}
+		}
 		for _, name := range tnames {
 			tf := a.FB.Types[a.FB.RootPath+"."+name]
 			for _, line := range tf.Doc {
